@@ -854,7 +854,11 @@ impl<'a> Run<'a> {
         if let Some(o) = bad("path_responses", pr.path_responses, 64) {
             return Err(o);
         }
-        if let Some(o) = bad("pending_retire_cids", pr.pending_retire_cids, 512) {
+        // quinn caps the queue when a NEW_CONNECTION_ID adds to it; frames that were sent and declared
+        // lost return to it (bounded by what congestion control let out), so the bound is the slack plus
+        // the RETIRE_CONNECTION_ID frames the victim has put on the wire
+        let retire_sent = self.pw.w.conns[k].c.stats().frame_tx.retire_connection_id as usize;
+        if let Some(o) = bad("pending_retire_cids", pr.pending_retire_cids, 512 + retire_sent) {
             return Err(o);
         }
         if let Some(o) = bad("crypto_buffered", pr.crypto_buffered.iter().copied().max().unwrap_or(0), self.c.cfg.crypto_buf as usize * 5 / 2 + 32768 + 1500) {
